@@ -158,7 +158,7 @@ func init() {
 							l2 = append(l2, tarEntry{Name: fmt.Sprintf("%s/.wh.n%d", dir, j+1), Type: tar.TypeReg, Mode: 0644})
 						case "out":
 							// a target that leaves the image root, spelled plainly or going down / staying put first
-							out := []string{"../../outside", "sub/../../../outside", "./../../outside"}[(gi+j)%3]
+							out := []string{"../../outside", "sub/../../../outside", "./../../outside", "/../outside", "/" + dir + "/../../outside"}[(gi+j)%5]
 							l1 = append(l1, tarEntry{Name: name, Type: tar.TypeSymlink, Mode: 0777, Linkname: out})
 						case "rel":
 							l1 = append(l1, tarEntry{Name: name, Type: tar.TypeSymlink, Mode: 0777, Linkname: fmt.Sprintf("n%d", to)})
